@@ -1,6 +1,6 @@
 \* new transactions / receipts (v10) as coded, every schedule
 CONSTANTS NSubs = 1 NConn = 1 InitLen = 1 MaxLen = 3 MaxTag = 3 MaxReverts = 1 MaxL1 = 0 MaxPc = 2 MaxTx = 2 MaxGw = 0 MaxRecv = 1 MaxTicks = 0 MaxBack = 3 MaxGot = 6
-  Ver = 10 Kinds <- KTxs StartAtL1 <- NoL1 NoLag = FALSE QuietSub = FALSE ReorgPrio = FALSE TeeStage = FALSE Window = FALSE FixL1None = FALSE BlockIds <- BidsLatest
+  Ver = 10 Kinds <- KTxs StartAtL1 <- NoL1 NoLag = FALSE QuietSub = FALSE ReorgPrio = FALSE TeeStage = FALSE Window = FALSE FixL1None = FALSE FixL1Order = FALSE BlockIds <- BidsLatest
 INIT Init
 NEXT Next
 VIEW view
